@@ -17,11 +17,14 @@ RULE  = ("seeded operation histories (insert rows/dicts/columns, index, where [9
 PLAN  = {"quick":    {"shards": 16, "cases": 240000, "timeout": 600,  "budget_s": 100},
          "thorough": {"shards": 16, "cases": 4000000, "timeout": 3000, "budget_s": 1200}}
 REQUIRED = ["oracle.where", "oracle.where.indexed", "oracle.where.scan", "oracle.groupby", "oracle.index",
-            "contract.index.rows_preserved", "contract.insert.columns_equal_length", "oracle.where.view", "oracle.lazy-resort"]
+            "contract.index.rows_preserved", "contract.insert.columns_equal_length", "oracle.where.view", "oracle.lazy-resort",
+            "oracle.alias.copies-kept", "oracle.alias.switches", "oracle.alias.query-after-switch"]
 ASSUMPTIONS = [
     "ordering comparisons on Missing cells are only checked differentially (indexed path == scan path, neither raises)",
     "columns holding real None are never indexed; arguments are of the column's own kind (no str-vs-int comparisons)",
     "the order index() produces is adopted by the model after checking multiset equality and sortedness by the index prefix",
+    "a copy shares its data with the original (coba's own test asserts that): both handles are one table with two sets of index columns; "
+    "views (where results) are not used after their parent was changed",
 ]
 
 OPS = ['=', '!=', '<', '<=', '>', '>=', 'in', '!in', 'match']
@@ -34,10 +37,13 @@ def _install_contracts():
     import icontract
     from coba.results.core import Table
     if getattr(Table, "_vf_contracts", False): return
-    def rows_before(self): return Counter(map(_crow, zip(*[list(self._data[c]) for c in self._columns]))) if self._columns else Counter()
+    # the rows are those of the data itself (every column it holds): a handle whose copy added a column through a ragged insert
+    # learns the column's name only when it is next used
+    def _allcols(self): return sorted(self._data.keys()) if isinstance(self._data, dict) else list(self._columns)
+    def rows_before(self): return Counter(map(_crow, zip(*[list(self._data[c]) for c in _allcols(self)]))) if self._columns else Counter()
     def rows_preserved(self, OLD):
         _CNT["contract.index.rows_preserved"] += 1
-        now = Counter(map(_crow, zip(*[list(self._data[c]) for c in self._columns]))) if self._columns else Counter()
+        now = Counter(map(_crow, zip(*[list(self._data[c]) for c in _allcols(self)]))) if self._columns else Counter()
         return now == OLD.rows
     def columns_equal_length(self):
         _CNT["contract.insert.columns_equal_length"] += 1
@@ -81,6 +87,7 @@ def gen_case(rng):
     none_cols = [c for c in cols if rng.random() < .12]      # columns with real None cells: never indexed
     ops = []
     extra = 0
+    alias = False
     def gen_rows(n, cs):
         return [[(None if (c in none_cols and rng.random() < .3) else gen_value(rng, kinds[c])) for c in cs] for _ in range(n)]
     nrows0 = rng.choice([0, 0, 1, 2, 3, 5, 8, 13, 20, 40])
@@ -111,13 +118,18 @@ def gen_case(rng):
             k = rng.choice([0, 1, 1, 2, 2, 3, 4])
             idx = rng.sample(cand, min(k, len(cand)))
             if rng.random() < .1: idx = idx + ["nope"]          # unknown column names are ignored by index()
+            if idx and rng.random() < .1: idx = idx + [rng.choice(idx)]   # a column named twice
             ops.append({"op": "index", "cols": idx})
         elif r < .88:
             ops.append(gen_where(rng, cols, kinds, none_cols))
-        elif r < .95:
+        elif r < .93:
             ops.append({"op": "groupby", "select": rng.choice([None, "count", "col", "cols"])})
+        elif r < .96 or not alias:
+            keep = rng.random() < .6                              # the original stays in use beside its copy (they share their data)
+            alias = alias or keep
+            ops.append({"op": "copy", "keep": keep})
         else:
-            ops.append({"op": "copy"})
+            ops.append({"op": "switch"})                          # go on with the other of the two handles
     return {"ops": ops, "kinds": kinds, "none_cols": none_cols}
 
 def gen_cond(rng, col, kind, has_none):
@@ -125,6 +137,7 @@ def gen_cond(rng, col, kind, has_none):
     if op in ("in", "!in"):
         n = rng.choice([0, 1, 2, 2, 3, 4])
         arg = [gen_arg(rng, kind) for _ in range(n)]          # duplicates are likely and intended
+        if rng.random() < .12: arg.insert(rng.randrange(len(arg) + 1), None)    # asks for the missing cells too
     elif op == "match":
         # documented regex semantics exist for strings only; on other columns 'match' degrades to '='
         if kind == "str": arg = rng.choice(["a", "^a", "b$", "a.", "", "1", "N"])
@@ -233,6 +246,10 @@ def check_case(spec, ctx=None):
         if ctx: ctx.count(name)
     cols, rows, indexes = [], [], ()
     table = None
+    other = None                  # (the other handle on the same data, its index columns) after a copy that is kept in use
+    aliased_since_query = False
+    fresh = True                  # False from a switch until the handle is used for an insert / index / where / groupby: a handle
+                                  # notices what was done through the other one when it is next used, not when it is merely iterated
     kinds = spec["kinds"]
 
     def rows_of(t): return [tuple(r) for r in t] if len(t.columns) else []
@@ -266,6 +283,7 @@ def check_case(spec, ctx=None):
                 elif op["form"] == "dicts": table = Table([dict(zip(cols, r)) for r in rows], columns=cols) if rows else Table(columns=cols)
                 else:                       table = Table(columns=cols).insert({c: [r[i] for r in rows] for i, c in enumerate(cols)} if rows else ())
             elif kind == "insert":
+                fresh = True
                 if op["form"] == "ragged":
                     dicts = op["dicts"]
                     new = sorted(set().union(*(d.keys() for d in dicts)) - set(cols))
@@ -282,9 +300,11 @@ def check_case(spec, ctx=None):
                     else: table.insert([dict(zip(ocols, r)) for r in new])
                     rows += full
             elif kind == "index":
-                want = [c for c in op["cols"] if c in cols]
+                want = list(dict.fromkeys(c for c in op["cols"] if c in cols))
                 before = Counter(map(_crow, rows))
                 table.index(*op["cols"])
+                if op["cols"] and cols: fresh = True
+                if not fresh: continue                            # index() without columns does not look at the table at all
                 after = rows_of(table)
                 note("oracle.index")
                 if Counter(map(_crow, after)) != before:
@@ -293,12 +313,20 @@ def check_case(spec, ctx=None):
                 rows = after
             elif kind == "copy":
                 t2 = table.copy()
-                if not same(rows_of(t2), rows) or tuple(t2.columns) != tuple(table.columns):
+                if fresh and (not same(rows_of(t2), rows) or tuple(t2.columns) != tuple(table.columns)):
                     viol.append(("copy/differs", "copy() differs from the original")); return viol
+                if op.get("keep"):
+                    # both handles stay in use; they share their data, each has its own index columns
+                    other = (table, indexes); note("oracle.alias.copies-kept")
                 table = t2
+            elif kind == "switch":
+                if other is None: continue
+                (table, indexes), other = other, (table, indexes)
+                aliased_since_query = True; fresh = False
+                note("oracle.alias.switches")
             elif kind == "groupby":
                 if not indexes or not rows: continue
-                list(table.groupby(0))
+                list(table.groupby(0)); fresh = True
                 bad = sync_order("groupby")
                 if bad: viol.append(bad); return viol
                 for level in range(len(indexes)):
@@ -327,6 +355,8 @@ def check_case(spec, ctx=None):
                     if not ok:
                         viol.append((f"groupby/select={sel}/mode=wrong-groups", f"groupby({level},{sel}) != partition by index prefix {indexes[:level]}")); return viol
             elif kind == "where":
+                if aliased_since_query: note("oracle.alias.query-after-switch"); aliased_since_query = False
+                fresh = True
                 cur_t, cur_rows = table, rows
                 for depth, step in enumerate(op["chain"], 1):
                     raised = None
@@ -374,7 +404,7 @@ def check_case(spec, ctx=None):
                         viol.append((f"where/{feat['sig']}/mode={mode}", f"step={step} indexes={indexes} got {len(got)} rows, scan model {len(exp)} rows; got={got[:6]} exp={exp[:6]}")); return viol
                     cur_rows, cur_t = exp, res
             # after every step the table must equal the model
-            if kind in ("init", "insert", "index", "copy"):
+            if kind in ("init", "insert", "index", "copy") and fresh:
                 got = rows_of(table)
                 if tuple(table.columns) != tuple(cols) or not same(got, rows):
                     viol.append((f"{kind}/table!=model/form={op.get('form')}", f"after {kind} table has columns {table.columns} rows {got[:5]}..., model {cols} {rows[:5]}")); return viol
